@@ -279,8 +279,9 @@ func TestC19_Grid(t *testing.T) {
 					}
 					i++
 					sp := h.BaseSP()
-					sp.Enc = h.KeyCfg{Mode: em, Field: h.CertRef{Key: "E1", Window: "wide"}, Setter: h.CertRef{Key: "E2", Window: "wide"}}
-					sp.Sig = h.KeyCfg{Mode: sm, Field: h.CertRef{Key: "S1", Window: "wide"}, Setter: h.CertRef{Key: "S2", Window: "wide"}}
+					w := h.SPWindows[(i/2)%len(h.SPWindows)]
+					sp.Enc = h.KeyCfg{Mode: em, Field: h.CertRef{Key: "E1", Window: w}, Setter: h.CertRef{Key: "E2", Window: w}, Chain: i%2 == 1}
+					sp.Sig = h.KeyCfg{Mode: sm, Field: h.CertRef{Key: "S1", Window: w}, Setter: h.CertRef{Key: "S2", Window: w}, Chain: i%4 >= 2}
 					sp.SignRequests, sp.Skip = i%2 == 0, i%3 == 0
 					sp.NowOffset = []int{0, 330, -480}[i%3]
 					cases = append(cases, C19Case{SP: sp, SLO: slo, Hours: hrs, Alg: i})
